@@ -12,7 +12,8 @@ RULE = ('Hypothesis generates a sequential program (<= 6 steps) and recording pa
         'ignore-forcing, copy-on-interception); the harness enumerates every single placement of every fault kind at '
         'every step - capture faults (key cannot be built, data handler raises), explicit discards from the operation '
         'and from inside intercepted bodies, forced sampling, ordinary exceptions and interrupt-style (BaseException) '
-        'terminations in the operation and inside intercepted bodies, a call of another decorated operation of the same '
+        'terminations in the operation and inside intercepted bodies, an intercepted body that discards the recording and '
+        'hands the work to another decorated operation, interpreter exits, a call of another decorated operation of the same '
         'recorder (refused while a recording runs; the operation copes and goes on), unserialisable values, failing save, failing '
         'extractor - plus a seeded sample of fault pairs. Oracle over the spy cassette log grouped by recording id: '
         'every created recording has exactly one finalisation (save xor abort); if a capture failed or a discard '
@@ -46,7 +47,7 @@ def check_case(ctx, case):
         # recording of its own (category <class>Inner), which must be finalised exactly once as well
         inner_cat = fr.cls.__name__ + 'Inner'
         all_created = [e[1] for e in fr.spy_log if e[0] == 'create']
-        inner_created = [r for r in all_created if r.split('/')[0] == inner_cat]
+        inner_created = [r for r in all_created if r.split('/')[0] in (inner_cat, inner_cat + '2')]
         created = [r for r in all_created if r not in inner_created]
         if len(created) != 1:
             raise Violation('operation created %d recordings: %r (%s)' % (len(created), fr.spy_log, what), 'created')
@@ -73,6 +74,23 @@ def check_case(ctx, case):
             raise Violation('store changed although a capture failed / the recording was discarded (%s)' % what,
                             'whole-or-nothing')
         replayed = 0
+        # an operation that an intercepted body invoked after giving up on the outer recording: whatever was saved for
+        # it and claims to be complete replays
+        for r in inner_created:
+            if r.split('/')[0] != inner_cat + '2' or ('save', r) not in [(e[0], e[1]) for e in fr.spy_log]:
+                continue
+            if fr.cas.get_recording_metadata(r).get(INC):
+                continue
+            try:
+                fr.W.world = 'REPLAY'
+                fr.rec.play(r, lambda recording: fr.W.inner2_cls().execute())
+            except RecordingKeyError as e:
+                raise Violation('the recording of an operation invoked from inside an intercepted function (after that '
+                                'function discarded the outer recording) was saved as complete but does not replay: %s '
+                                '(%s)' % (e, what), 'saved-replays')
+            finally:
+                fr.W.world = 'LIVE'
+            replayed += 1
         # a later, fault-free operation of the same service on the same recorder and thread is captured whole as well
         clean, _ = FR.apply_faults(case['prog'], [])
         clean_prog = PS.assign_sids(PS.normalise_inputs(clean))
@@ -171,7 +189,7 @@ def nontrivial(prog, faults):
 
 def enumerate_case(ctx, base):
     prog = base['prog']
-    for fl in FR.placements(ctx, prog, base['pair_seed'], extra=('exits',)):
+    for fl in FR.placements(ctx, prog, base['pair_seed'], extra=('exits', 'op_in_body')):
         case = {'prog': prog, 'faults': fl, 'params': base['params'], 'cassette': base['cassette'], 'seed': base['seed'],
                 'prior': base.get('prior')}
         try:
